@@ -20,7 +20,9 @@ META = dict(
 
 ALPHA = [0x37, 0x20, 0x0a, 0xEF, 0xBB, 0xBF, 0x00]
 PROGS = [b"log(1); 7", b"var x = 3\nx * 2", b"#!/usr/bin/chai\nlog(2)\n5", b"", b" ", b"7", b"x", b"\n", b"log(3)\r\nlog(4)\r\n9", b"1 +", b"\"abc\"",
-         b"def f(a) { a + 1 }\nf(2)", b"true", b"7\x00", b"7\x00\x00\x00", b"log(5)\n\n\n", b"// only a comment", b"/* c */ 4", b"3.5", b"\xef\xbb", b"\xef"]
+         b"def f(a) { a + 1 }\nf(2)", b"true", b"7\x00", b"7\x00\x00\x00", b"log(5)\n\n\n", b"// only a comment", b"/* c */ 4", b"3.5", b"\xef\xbb", b"\xef",
+         b"throw(42)", b"log(6); throw(\"boom\")", b"throw(2.5)", b"throw(true)", b"log(7)\nthrow([1])", b"def g() { throw(3) }\ng()", b"try { throw(1) } catch (e) { log(8); throw(e + 1) }",
+         b"\"a string result\"", b"var v = [1, 2]\nv[5]", b"1 / 0", b"no_such_function(1)"]
 
 
 def run(ctx):
@@ -77,7 +79,7 @@ def run(ctx):
     for line, t in disagree[:5]:
         found += 1
         ctx.violation("input", {"mode": "file", "case": line, "observed": t,
-                                "expected": "eval_file(path) behaves like eval(bytes minus one leading BOM): same result, same side effects, same error class"})
+                                "expected": "every overload of eval_file (plain, with an exception handler, typed, typed with a handler) behaves like the same overload of eval on the bytes minus one leading BOM: same result, same side effects, same exception"})
     ctx.count("eval_file_vs_eval_disagreements", len(disagree))
     ctx.cov["exhaustive"] = False
     ctx.cov["exhaustive_part"] = "all %d file contents of length <= %d over 7 symbols" % (sum(7 ** n for n in range(maxlen + 1)), maxlen)
